@@ -4,6 +4,7 @@ import (
 	"encoding/json"
 	"errors"
 	"fmt"
+	"github.com/bitcoin-sv/block-headers-service/internal/chaincfg/chainhash"
 	"io"
 	"net/http"
 	"sort"
@@ -153,6 +154,22 @@ func (r *c11rec) Notify(e notification.Event) {
 type failRepo struct {
 	repository.Headers
 	failHash string
+	// armed by the submitter around one submission: the tip lookup / the state switch fails
+	failTip, failUpdate bool
+}
+
+func (f *failRepo) GetTip() (*domains.BlockHeader, error) {
+	if f.failTip {
+		return nil, errors.New("injected tip lookup failure")
+	}
+	return f.Headers.GetTip()
+}
+
+func (f *failRepo) UpdateState(hs []chainhash.Hash, st domains.HeaderState) error {
+	if f.failUpdate {
+		return errors.New("injected state update failure")
+	}
+	return f.Headers.UpdateState(hs, st)
 }
 
 func (f *failRepo) AddHeaderToDatabase(h domains.BlockHeader) error {
@@ -166,7 +183,7 @@ func runC11(rep *core.Report, sc c11scenario, prefix []int, seen map[string]bool
 	// universe: a<-G, b<-a, c<-G (insert fails), f<-G (forbidden)
 	L := core.BitsLight
 	u := core.Fabricate(core.Blueprint{Nodes: []core.BNode{{}, {Parent: 0, Bits: L}, {Parent: 1, Bits: L}, {Parent: 0, Bits: core.BitsHeavy}, {Parent: 0, Bits: L}}}, 0)
-	nodeOf := map[string]int{"a": 1, "b": 2, "dup-a": 1, "fail-c": 3, "forbidden": 4}
+	nodeOf := map[string]int{"a": 1, "b": 2, "dup-a": 1, "fail-c": 3, "forbidden": 4, "failtip-c": 3, "failupd-c": 3}
 	if sc.Long > 0 {
 		// nodes 1..4 as above (unused), then a linear chain n1..nK off genesis
 		bn := []core.BNode{{}, {Parent: 0, Bits: L}, {Parent: 1, Bits: L}, {Parent: 0, Bits: core.BitsHeavy}, {Parent: 0, Bits: L}}
@@ -186,9 +203,14 @@ func runC11(rep *core.Report, sc c11scenario, prefix []int, seen map[string]bool
 	s.Bubble = true
 	hang := &hangForever{release: make(chan struct{})}
 	sinks := [3]*sink{{name: "webhook"}, {name: "websocket"}, {name: "recorder"}}
+	var fr *failRepo
 	rig := core.NewRig(core.RigOpts{
-		WrapHeaders: func(h repository.Headers) repository.Headers { return &failRepo{Headers: h, failHash: u.H[3].Hex()} },
-		Cfg:         func(c *config.AppConfig) { c.Webhook.MaxTries = 100 },
+		WrapHeaders: func(h repository.Headers) repository.Headers {
+			fr = &failRepo{Headers: h}
+			fr.failHash = u.H[3].Hex()
+			return fr
+		},
+		Cfg: func(c *config.AppConfig) { c.Webhook.MaxTries = 100 },
 	})
 	defer rig.Close()
 	// production wiring of the channels (cmd/main.go), each behind a scheduling wrapper
@@ -205,7 +227,18 @@ func runC11(rep *core.Report, sc c11scenario, prefix []int, seen map[string]bool
 	s.Go("submitter", func() {
 		for _, sym := range sc.History {
 			s.Point("submit:" + sym)
+			// (c competes with a: adding it looks up the tip and, being heavier, switches the chains)
+			fr.failHash = ""
+			switch sym {
+			case "fail-c":
+				fr.failHash = u.H[3].Hex()
+			case "failtip-c":
+				fr.failTip = true
+			case "failupd-c":
+				fr.failUpdate = true
+			}
 			res := core.SafeAdd(rig.Svc.Chains, u.Raw[nodeOf[sym]].Source())
+			fr.failTip, fr.failUpdate = false, false
 			codes = append(codes, res.Code())
 		}
 		submitterDone = true
@@ -261,7 +294,16 @@ func runC11(rep *core.Report, sc c11scenario, prefix []int, seen map[string]bool
 	t.Forbidden[u.H[4].Hex()] = true
 	for i, sym := range sc.History {
 		n := nodeOf[sym]
-		if sym == "fail-c" {
+		if strings.HasPrefix(sym, "fail") {
+			if sym != "fail-c" && (len(t.Order) < 2) {
+				// (without a stored competitor the lookup / switch is not reached: the header is stored)
+				out, m := t.Add(n, u.Raw[n])
+				if out == core.OutStored {
+					lab := t.Labels()[m.Hash]
+					want[m.Hash] = fmt.Sprintf("ADD|%s|h%d|%s|v%d|%s|%s|n%d|t%d|w%s", m.Hash, m.Height, lab, m.Raw.Version, m.Raw.Merkle.Hex(), m.Prev, m.Raw.Nonce, m.Raw.Time, m.Cum)
+				}
+				continue
+			}
 			if i < len(codes) && codes[i] == "stored" {
 				viol("failed_insert_reported_stored", "a submission whose insert failed was reported as stored", "error", codes[i])
 			}
@@ -317,7 +359,9 @@ func checkC11(t *testing.T, env core.Env, rep *core.Report) {
 			hists = append(hists, []string{x, y})
 		}
 	}
-	long := [][]string{{"a", "b", "dup-a"}, {"a", "forbidden", "b"}, {"fail-c", "a", "b"}, {"a", "dup-a", "b"}, {"b", "a", "b"}}
+	long := [][]string{{"a", "b", "dup-a"}, {"a", "forbidden", "b"}, {"fail-c", "a", "b"}, {"a", "dup-a", "b"}, {"b", "a", "b"},
+		// storage failures in the middle of a competing submission (tip lookup; state switch)
+		{"a", "failtip-c"}, {"a", "failupd-c"}, {"a", "b", "failupd-c"}, {"a", "failtip-c", "b"}}
 	if env.Tier == "thorough" {
 		// every history of length 3, all schedules (memoised) - until the deadline
 		for _, x := range syms {
